@@ -148,6 +148,7 @@ func ReadPBFWithOptions(r io.Reader, emit EmitWithGoroutine, options ReadOptions
 		wg.Done()
 	}()
 	var readOSMDataErr error
+	var readOSMDataErrLock sync.Mutex
 	for i := 0; i < cores; i++ {
 		go func(goroutine int) {
 			defer wg.Done()
@@ -161,7 +162,9 @@ func ReadPBFWithOptions(r io.Reader, emit EmitWithGoroutine, options ReadOptions
 				case b := <-c:
 					if b.Type == blobTypeOSMData {
 						if err := readOSMDataBlob(b, f, options); err != nil {
+							readOSMDataErrLock.Lock()
 							readOSMDataErr = err
+							readOSMDataErrLock.Unlock()
 							cancel()
 						}
 					} else if b.Type == blobTypeDone {
